@@ -1,4 +1,5 @@
 import TracklibVerif.Model.Graph
+import TracklibVerif.Model.GraphPD
 import TracklibVerif.Drv.Util
 /-! Driver handler for C06 (network shortest distances), weights in `Rat`.
 A graph is `<n> <edges>`: nodes `0..n-1`, edges `id,src,tgt,w,ori` separated by `;` (`_` = none).
@@ -7,7 +8,11 @@ A graph is `<n> <edges>`: nodes `0..n-1`, edges `id,src,tgt,w,ori` separated by 
   lists <n> <order> <edges> <cut>      → n rows of `shortest_distance(s,None,cut)` (labels in insertion order, `none` = 1e300)
   all   <n> <order> <edges> <cut>      → entries `s,v,d` (`;`) of `all_shortest_distances(cut)`
   prep  <n> <order> <edges> <cut1> <cut2|->  → n rows of `prepared_shortest_distance(s,t)` after `prepare(cut1)`
-                                           [then `prepare(cut2)` on the same DISTANCES], `none` = 1e300 -/
+                                           [then `prepare(cut2)` on the same DISTANCES], `none` = 1e300
+  pairsPD <n> <edges> <cut>            → as `pairs`, computed by the loop with the explicit priority_dict (`runForwardPD`)
+  pq <init> <ops>                      → `priority_dict`: `<init>` = `k,p;k,p;…` (constructor argument), `<ops>` = `;`-separated
+                                         `s,<key>,<priority>` (`pd[key] = priority`) or `p` (`pop_smallest()`);
+                                         reply: per op, `,`-separated: the popped key / `err` (IndexError), or `len(pd)` after a set -/
 namespace TV.Drv.C06
 open TV.Graph TV.Drv
 
@@ -46,8 +51,43 @@ def showOptRat (dflt : String) : Option Rat → String
 def rows (n : Nat) (f : Nat → List String) : String :=
   joinWith ";" ((List.range n).map (fun s => joinWith "," (f s)))
 
+def kv? (s : String) : Option (Nat × Rat) :=
+  match splitTok s ',' with
+  | [k, p] => do let k ← k.toNat?; let p ← rat? p; some (k, p)
+  | _ => none
+
+def pqRun (pd : TV.PDict.PD Rat) : List String → Option (List String)
+  | [] => some []
+  | op :: rest =>
+    match splitTok op ',' with
+    | ["p"] =>
+      match TV.PDict.popSmallest pd with
+      | none => (pqRun pd rest).map ("err" :: ·)
+      | some (k, pd') => (pqRun pd' rest).map (toString k :: ·)
+    | ["s", k, p] =>
+      match k.toNat?, rat? p with
+      | some k, some p =>
+        let pd' := TV.PDict.setitem pd k p
+        (pqRun pd' rest).map (toString (TV.PDict.len pd') :: ·)
+      | _, _ => none
+    | _ => none
+
 def handle (cmd : String) (args : List String) : String :=
   match cmd, args with
+  | "pq", [init, ops] =>
+    match (splitTok init ';').mapM kv? with
+    | some items =>
+      if nodup (items.map (·.1)) then
+        match pqRun (TV.PDict.ofDict items) (splitTok ops ';') with
+        | some out => joinWith "," out
+        | none => "bad-request"
+      else "bad-request"
+    | none => "bad-request"
+  | "pairsPD", [n, es, c] =>
+    match net? n es, cut? c with
+    | some net, some cut =>
+      rows net.n (fun s => (List.range net.n).map (fun t => showOptRat "none" ((runForwardPD net s (some t) cut).1.d t)))
+    | _, _ => "bad-request"
   | "pairs", [n, es, c] =>
     match net? n es, cut? c with
     | some net, some cut =>
